@@ -196,7 +196,7 @@ def r4a_unordered(ctx, only_fns=None, rule="R4a"):
                 # consumed locally (argument of a non-sorting call after the loop is not tracked: local use)
                 continue
             n += 1
-            key = "%s|%s|%s" % (rule, f.id, f.local_name(v) or "_%d" % v)
+            key = "%s|%s|%s" % (rule, f.id, f.local_name(v) or "_")
             sb = [b for h in holders for b in sort_blocks(f, h)]
             rets = [b for b in f.exits()]
             ok = False
@@ -209,12 +209,20 @@ def r4a_unordered(ctx, only_fns=None, rule="R4a"):
             # every direct caller sorts the returned value, or consumes it locally (then the caller is examined in its own
             # right: the result is an unordered vector there, see unordered_vectors)
             cs = callers.get(f.id, [])
-            if cs and all(_caller_sorts(cf, cbb, c) or 0 not in _moved_into(cf, place_local(c["dest"])) for cf, cbb, c in cs):
-                r.ok(sample={"fn": f.id.split("::")[-1], "vector": f.local_name(v), "sorted": "by every caller, or consumed there"})
+            if cs and all(_caller_sorts(cf, cbb, c) or (0 not in _moved_into(cf, place_local(c["dest"])) and
+                                                        _order_free_uses(cf, place_local(c["dest"]))) for cf, cbb, c in cs):
+                r.ok(sample={"fn": f.id.split("::")[-1], "vector": f.local_name(v), "sorted": "by every caller, or consumed there order-free"})
                 continue
-            if cs and all(cf.id in returners for cf, cbb, c in cs if not _caller_sorts(cf, cbb, c) and 0 in _moved_into(cf, place_local(c["dest"]))):
-                # passed on unsorted by a caller that is itself reported (or discharged) under its own name
-                r.ok(sample={"fn": f.id.split("::")[-1], "vector": f.local_name(v), "sorted": "answerable at the caller"})
+            def _caller_ok(cf, cbb, c):
+                if _caller_sorts(cf, cbb, c):
+                    return True
+                dl = place_local(c["dest"])
+                if 0 in _moved_into(cf, dl):
+                    # passed on unsorted by a caller that is itself reported (or discharged) under its own name
+                    return cf.id in returners
+                return _order_free_uses(cf, dl)
+            if cs and all(_caller_ok(cf, cbb, c) for cf, cbb, c in cs):
+                r.ok(sample={"fn": f.id.split("::")[-1], "vector": f.local_name(v), "sorted": "answerable at the caller(s)"})
                 continue
             if key in REVIEWED:
                 r.review(key, REVIEWED[key])
@@ -248,6 +256,48 @@ def _value_reaches(f, v, rb, avoid=frozenset()):
                 seen.add(s2)
                 st.append(s2)
     return False
+
+
+ORDER_FREE = re.compile(r"::(len|is_empty|contains|iter|into_iter|deref|as_ref|as_slice|borrow|clone|any|all|count|sum|min|max|min_by|max_by|"
+                        r"min_by_key|max_by_key|is_some|is_none|is_ok|is_err|unwrap_or_default|unwrap|expect|unwrap_or|as_deref|cloned|copied|"
+                        r"sort\w*|collect|filter|map|filter_map|flat_map|flatten|chain|drop|eq|ne)$")
+
+
+def _order_free_uses(cf, d):
+    """every use of the unordered value (held in local d and what it is moved / borrowed into) is a call whose outcome cannot
+    depend on the element order, and what is collected from it lands in a set / map or is itself sorted; a for-loop over it, a
+    `first()` / `find()`, or handing it to another function of the crate is an order-sensitive use"""
+    holders = set(_moved_into(cf, d))
+    changed = True
+    while changed:
+        changed = False
+        for bb, si, pl, rv, sp in cf.assigns():
+            if rv[0] == "ref" and place_local(rv[2]) in holders and place_local(pl) not in holders:
+                holders.add(place_local(pl))
+                changed = True
+        for bb, c in cf.calls():
+            if c["args"] and op_local(c["args"][0]) in holders and place_local(c["dest"]) not in holders:
+                res = c.get("res") or c.get("fn") or ""
+                if re.search(r"::(iter|into_iter|deref|as_ref|as_slice|borrow|clone|filter|map|filter_map|flat_map|flatten|chain|cloned|copied|"
+                             r"unwrap_or_default|unwrap|expect|unwrap_or|as_deref)$", res):
+                    holders.add(place_local(c["dest"]))
+                    changed = True
+    for bb, c in cf.calls():
+        used = [a for a in c["args"] if op_local(a) in holders]
+        if not used:
+            continue
+        res = c.get("res") or c.get("fn") or ""
+        if c["span"][4].startswith("desugar:ForLoop"):
+            return False
+        if c.get("res_local") and c.get("res") in cf.crate.fns:
+            return False
+        if not ORDER_FREE.search(res):
+            return False
+        if res.endswith("::collect"):
+            dl = place_local(c["dest"])
+            if "std::vec::Vec<" in cf.local_ty(dl) and not sort_blocks(cf, dl):
+                return False
+    return True
 
 
 def _caller_sorts(cf, cbb, c):
@@ -285,6 +335,53 @@ def r4b_unordered_pick(ctx):
         else:
             r.violate(key, "first match in hash order is returned by %s at %s (fields tested: %s)" % (f.id, crate.span_str(s.span), sorted(s.fields)))
     r.counts["sites"] = n
+    # first-wins filter across the iterations of a hash-ordered loop: `if seen.insert(key) { out.push(record) }` where the record
+    # carries more than the key keeps whichever element the hash order visits first (records of index types are R4c's business)
+    m = 0
+    for f in crate.real_fns():
+        s1_headers = [bb for bb, c in f.calls() if c.get("fn") == "std::iter::Iterator::next" and c["span"][4].startswith("desugar:ForLoop") and _is_s1(c.get("targs", []))]
+        if not s1_headers:
+            continue
+        dom = None
+        for h in s1_headers:
+            body, _ = loop_body(f, h)
+            for b in sorted(body):
+                t = f.blocks[b]["t"]
+                if t[0] != "call" or not re.search(r"collections::(Hash|BTree)Set::<[^>]*>::insert$", t[1].get("res") or "") or len(t[1]["args"]) < 2:
+                    continue
+                c = t[1]
+                setl = _root_local(f, c["args"][0])
+                # the set lives across iterations: it is not created inside this loop
+                if setl is None or any(d[1] in body for d in f.whole_defs(setl) if d[0] in ("call", "assign")):
+                    continue
+                sw = None
+                tgt = c.get("target")
+                if tgt is not None and f.blocks[tgt]["t"][0] == "switch" and op_local(f.blocks[tgt]["t"][1]) == place_local(c["dest"]):
+                    sw = f.blocks[tgt]["t"]
+                if sw is None:
+                    continue
+                true_t = sw[3] if sw[3] is not None else None
+                if true_t is None:
+                    continue
+                dom = dom or f.dominators()
+                keynames = _named_roots(f, c["args"][1], stop_at_named=True)
+                for b2 in sorted(body):
+                    t2 = f.blocks[b2]["t"]
+                    if t2[0] != "call" or not re.search(r"Vec::<T, A>::push$", t2[1].get("res") or "") or true_t not in dom.get(b2, set()):
+                        continue
+                    ta = " ".join(t2[1].get("targs", []))
+                    if sel.DEF in ta.split(",")[0] or sel.USAGE in ta.split(",")[0]:
+                        continue
+                    m += 1
+                    extra = _named_roots(f, t2[1]["args"][1], stop_at_named=True) - keynames - {"self"}
+                    key = "R4b|%s|first-wins filter in hash order" % f.id
+                    if extra:
+                        r.violate(key, "%s keeps, per key, the first record the hash-ordered loop at %s happens to visit (the record is "
+                                       "built from %s, the filter key is not): which one is reported changes from run to run" % (
+                                           f.id, crate.span_str(f.blocks[h]["t"][1]["span"]), sorted(extra)[:4]))
+                    else:
+                        r.ok()
+    r.counts["first_wins_filters_in_hash_loops"] = m
     return r
 
 
@@ -444,3 +541,29 @@ def _root_local_of(f, op, depth=0):
     if len(ds) == 1 and ds[0][0] == "assign" and ds[0][3][0] == "use" and op_local(ds[0][3][1]) is not None and not place_projs(op_place(ds[0][3][1])):
         return _root_local_of(f, ds[0][3][1], depth + 1)
     return l
+
+
+# ------------------------------------------------------------------------------------------ R4f: no prefix adaptors over index vectors
+def r4f_no_prefix_adaptors(ctx):
+    r = Result("R4f", "no `take_while` / `skip_while` / `map_while` / `binary_search*` / `partition_point` over an iterator or slice of "
+                      "index records (FixtureDefinition / FixtureUsage vectors): the element order of those vectors is the order in "
+                      "which files and decorators happened to be analysed (not sorted by line, file or origin), so a prefix "
+                      "adaptor silently stops before elements that qualify, and which ones depends on that order")
+    crate = ctx.bin
+    n = 0
+    for f in crate.real_fns():
+        for bb, c in f.calls():
+            meth = (c.get("fn") or c.get("res") or "").rsplit("::", 1)[-1]
+            if meth not in ("take_while", "skip_while", "map_while", "binary_search", "binary_search_by", "binary_search_by_key", "partition_point"):
+                continue
+            ta = " ".join(c.get("targs", []))
+            if sel.DEF not in ta and sel.USAGE not in ta:
+                continue
+            n += 1
+            key = "R4f|%s|%s over index records" % (f.root, meth)
+            if key in REVIEWED:
+                r.review(key, REVIEWED[key])
+            else:
+                r.violate(key, "%s uses `%s` over index records at %s: their order is analysis order" % (f.root.split("::")[-1], meth, crate.span_str(c["span"])))
+    r.counts["prefix_adaptors_over_index_records"] = n  # expected 0; positive examples: seeded changes C01-l, C20-n
+    return r
